@@ -84,6 +84,11 @@ func (g G) refSchema(paths []string, pi int, simple bool) m.BodyM {
 			"dep":  {Flag: "optional", Cons: m.ConsM{K: "list", Elem: &m.ConsM{K: "ref", Scope: "resource"}}},
 			"any":  {Flag: "optional", Cons: anyOf(cty.DynamicPseudoType)},
 			"note": {Flag: "optional", Cons: anyOf(cty.String)},
+			"meta": {Flag: "optional", Cons: m.ConsM{K: "object", Attrs: map[string]m.AttrM{
+				"k":    {Flag: "optional", Cons: anyOf(cty.String)},
+				"z":    {Flag: "optional", Cons: anyOf(cty.Number)},
+				"flag": {Flag: "optional", Cons: anyOf(cty.Bool)},
+			}}},
 		},
 		Blocks: map[string]m.BlockM{
 			"disk": {Type: Pick(g, []string{"list", "set", "object"}), Body: &m.BodyM{Attrs: map[string]m.AttrM{
@@ -299,6 +304,17 @@ func (g G) refConfig(root m.BodyM, paths []string, pi int, simple bool) string {
 		}
 		if g.Chance(30) {
 			fmt.Fprintf(&sb, "  dep = [%s]%s", Pick(g, refTypes)+"."+Pick(g, refNames), nl)
+		}
+		if !simple && g.Chance(35) {
+			// an object with known attributes; sometimes an item whose key is no literal name follows one
+			items := []string{"flag = " + Pick(g, []string{"true", g.refAddr(simple), ""}), "k = " + Pick(g, []string{`"s"`, g.refAddr(simple)})}
+			if g.Chance(50) {
+				items = append(items, Pick(g, []string{"(var.a)", `"${var.b}"`, "var.a"})+" = "+Pick(g, []string{g.refAddr(simple), "t", ""}))
+			}
+			if g.Chance(40) {
+				items = append(items, "z = "+Pick(g, []string{"1", g.refAddr(simple)}))
+			}
+			fmt.Fprintf(&sb, "  meta = {%s    %s%s  }%s", nl, strings.Join(items, nl+"    "), nl, nl)
 		}
 		nd := g.Int(0, 3)
 		if nd == 3 {
